@@ -554,7 +554,18 @@ def SmallObject (o : Obj) : Prop :=
     ∀ idx ∈ g.secs, ∀ s ∈ o.secs[idx.toNat]?, s.addrSet = true →
       g.vaddr.toNat ≤ s.addr.toNat ∧ s.addr.toNat - g.vaddr.toNat < 1099511627776)
 
-instance (o : Obj) : Decidable (SmallObject o) := by unfold SmallObject; infer_instance
+/-- decide the member condition by going through the member list (not through all of `BitVec 16`) -/
+instance smallMembersDec (o : Obj) (g : Seg) : Decidable (∀ idx ∈ g.secs, ∀ s ∈ o.secs[idx.toNat]?, s.addrSet = true →
+    g.vaddr.toNat ≤ s.addr.toNat ∧ s.addr.toNat - g.vaddr.toNat < 1099511627776) :=
+  List.decidableBAll _ _
+
+instance (o : Obj) : Decidable (SmallObject o) :=
+  inferInstanceAs (Decidable (
+    o.cls = .c64 ∧ o.secs.length < 65536 ∧ o.segs.length < 65536 ∧
+    (∀ s ∈ o.secs, s.size.toNat < 1099511627776 ∧ s.addrAlign.toNat < 1099511627776) ∧
+    (∀ g ∈ o.segs, g.align.toNat < 1099511627776 ∧
+      ∀ idx ∈ g.secs, ∀ s ∈ o.secs[idx.toNat]?, s.addrSet = true →
+        g.vaddr.toNat ≤ s.addr.toNat ∧ s.addr.toNat - g.vaddr.toNat < 1099511627776)))
 
 /-- **Closed-form no-wrap.**  A small object never wraps the layout cursor: the domain hypothesis
     `layoutNW` of the writer theorems follows from plain bounds on the input. -/
